@@ -705,6 +705,91 @@ def class_programs(rep: Report, rng: Rng, nprog: int):
     rep.streams["class-programs"] = {"cases": len(plans), "disagreements": bad}
 
 
+
+# ------------------------------------------------------------------ class forms: float64 scores next to thresholds, caller-owned threshold tensors
+
+def class_extra_verdict(kind: str, name: str, seed: int):
+    """one deterministic class-form case -> None | (signature, what).
+    "float64-below-threshold": float64 scores a hair (factor 1 − 2^-30) below grid thresholds — they belong to the bucket
+        BELOW the threshold; a class that buffers them in the thresholds' float32 lands them ON it.  The class result must
+        equal the functional on the same data and the exact metric of the floored scores.
+    "threshold-tensor-owned": the three binned PR-curve classes take a COPY of a threshold tensor; the caller refreshing its
+        own tensor between updates must not move the metric's thresholds (twin built from an untouched copy)."""
+    import torcheval.metrics as M
+    g = torch.Generator().manual_seed(seed)
+    thr = [0.0, 0.25, 0.5, 0.75, 1.0]
+    first = lambda o: (o[0] if isinstance(o, (tuple, list)) else o)   # noqa: E731  (value, thresholds) or the value alone
+    if kind == "float64-below-threshold":
+        n = 24
+        grid = torch.tensor([0.25, 0.5, 0.75, 1.0, 0.125, 0.625], dtype=torch.float64)
+        x = grid[torch.randint(0, 6, (n,), generator=g)] * (1.0 - 2.0 ** -30)
+        y = torch.randint(0, 2, (n,), generator=g)
+        if name == "BinaryBinnedAUROC":
+            m = M.BinaryBinnedAUROC(threshold=thr); m.update(x[:9], y[:9]); m.update(x[9:], y[9:])
+            got = first(m.compute()).reshape(-1).double()
+            ref = first(F.binary_binned_auroc(x, y, threshold=thr)).reshape(-1).double()
+            exp = oracle("binary_binned_auroc", {"input": x, "target": y, "threshold": thr}, floored=True)
+        elif name == "BinaryBinnedAUPRC":
+            m = M.BinaryBinnedAUPRC(threshold=thr); m.update(x[:9], y[:9]); m.update(x[9:], y[9:])
+            got = first(m.compute()).reshape(-1).double()
+            ref = first(F.binary_binned_auprc(x, y, threshold=thr)).reshape(-1).double()
+            exp = oracle("binary_binned_auprc", {"input": x, "target": y, "threshold": thr}, floored=True)
+        else:
+            m = M.BinaryBinnedPrecisionRecallCurve(threshold=thr); m.update(x[:9], y[:9]); m.update(x[9:], y[9:])
+            out = m.compute(); got = torch.cat([out[0].reshape(-1).double(), out[1].reshape(-1).double()])
+            o2 = F.binary_binned_precision_recall_curve(x, y, threshold=thr); ref = torch.cat([o2[0].reshape(-1).double(), o2[1].reshape(-1).double()])
+            exp = None
+        if not torch.allclose(got, ref, rtol=1e-6, atol=1e-9, equal_nan=True):
+            return (f"C06|{name}|float64-scores-below-threshold|class-differs-from-functional",
+                    f"{name} fed float64 scores just below thresholds gives {got.tolist()} where the functional on the same data gives {ref.tolist()}")
+        if exp is not None:
+            e0 = [float(v) for v in exp[0]]
+            if not torch.allclose(got, torch.tensor(e0, dtype=torch.float64), rtol=1e-5, atol=1e-7, equal_nan=True):
+                return (f"C06|{name}|float64-scores-below-threshold|differs-from-exact-on-floored-scores",
+                        f"{name} gives {got.tolist()} where the exact metric of the scores rounded down to the thresholds is {e0}")
+        return None
+    if kind == "threshold-tensor-owned":
+        cls = getattr(M, name)
+        kw = {"num_classes": 3} if name.startswith("Multiclass") else ({"num_labels": 3} if name.startswith("Multilabel") else {})
+        t_caller = torch.tensor([0.0, 0.25, 0.5, 0.75, 1.0])
+        a, b = cls(threshold=t_caller, **kw), cls(threshold=t_caller.clone(), **kw)
+        def batch():
+            if name.startswith("Binary"):
+                return torch.randint(0, 9, (7,), generator=g).float() / 8, torch.randint(0, 2, (7,), generator=g)
+            x = torch.randint(0, 9, (7, 3), generator=g).float() / 8
+            return (x, torch.randint(0, 3, (7,), generator=g)) if name.startswith("Multiclass") else (x, torch.randint(0, 2, (7, 3), generator=g))
+        b1, b2 = batch(), batch()
+        a.update(*b1); b.update(*b1)
+        t_caller.mul_(0.5)                       # the caller refreshes ITS tensor
+        a.update(*b2); b.update(*b2)
+        fa, fb = [], []
+        def flat(o, acc):
+            for v in (o if isinstance(o, (tuple, list)) else [o]):
+                flat(v, acc) if isinstance(v, (tuple, list)) else acc.append(v.reshape(-1).double())
+        flat(a.compute(), fa); flat(b.compute(), fb)
+        fa, fb = torch.cat(fa), torch.cat(fb)
+        if fa.shape != fb.shape or not torch.allclose(fa, fb, equal_nan=True):
+            return (f"C06|{name}|threshold-tensor-owned-by-caller|moves-with-the-callers-tensor",
+                    f"{name}(threshold=<tensor>): after the caller halved its own tensor in place between two updates the metric reports {fa.tolist()[:12]}…, a twin built from a copy {fb.tolist()[:12]}…")
+        return None
+    raise ValueError(kind)
+
+
+CLASS_EXTRA = ([("float64-below-threshold", n) for n in ("BinaryBinnedAUROC", "BinaryBinnedAUPRC", "BinaryBinnedPrecisionRecallCurve")]
+               + [("threshold-tensor-owned", n) for n in ("BinaryBinnedPrecisionRecallCurve", "MulticlassBinnedPrecisionRecallCurve", "MultilabelBinnedPrecisionRecallCurve")])
+
+
+def class_extra_stream(rep: Report):
+    for kind, name in CLASS_EXTRA:
+        for r in range(3 if rep.tier == "quick" else 12):
+            seed = rep.seed * 6151 + 17 * r + 3
+            v = class_extra_verdict(kind, name, seed)
+            rep.case(nontrivial_key=("class-extra", kind, name, seed), sample=None)
+            rep.count(f"class-extra:{kind}")
+            if v:
+                rep.violation(v[0], v[1], {"kind": "class-extra", "extra": kind, "name": name, "seed": seed})
+                break
+
 def run(rep: Report):
     rng = Rng(rep.seed * 1000003 + 6)
     from .. import opscheck; opscheck.check_ops(rep, ["binned"])
@@ -715,6 +800,7 @@ def run(rep: Report):
     check_cases(rep, multi_cases(rng, rep.tier), "functional-multi", deadline)
     check_spec_oracles(rep, rng, 1500 if rep.tier == "thorough" else 250)
     class_programs(rep, rng, 1200 if rep.tier == "thorough" else 160)
+    class_extra_stream(rep)
 
 
 def search(rep: Report):
@@ -756,6 +842,11 @@ def replay(payload) -> bool:
     if not isinstance(r, dict) or not r:
         _nothing("the payload carries no replay dict")
     kind = r.get("kind")
+    if kind == "class-extra":
+        v = class_extra_verdict(r["extra"], r["name"], int(r["seed"]))
+        if v:
+            print(f"replay: {v[0]}: {v[1]}"[:700])
+        return v is None
     if kind == "glue" or (kind is None and "glue" in r):
         val = r.get("glue")
         form = r.get("form") or ("int" if isinstance(val, int) else None)
